@@ -77,18 +77,22 @@ EndVerdicts ==
 (***************************************************************************)
 ImplProps ==
    LET d == Docs[vTid]  ok == d.ok = 1  pk == ok /\ d.compiled = 1  dk == DialectInForce(d.lines, d.dialect)
-       ix == Index(d.ast)  eps == EPs(d.ast, d.uri) IN
+       ix == Index(d.ast)  eps == EPs(d.ast, d.uri)
+       \* predicates that index the source by recorded line numbers are only evaluated when those numbers exist (otherwise FALSE, never a crash)
+       safe == /\ P_C03_Within(d.lines, d.ast, ix)
+               /\ \A j \in 1..Len(d.toks) : d.toks[j].line \in 1..(Len(d.lines) + 1) /\ (d.toks[j].type # "EOF" => d.toks[j].line <= Len(d.lines))
+               /\ \A n \in SeqToSet(ix.titled) : \E j \in 1..Len(d.toks) : d.toks[j].line = n.line IN
    [ c01_outcome  |-> P_C01_Outcome(d.errs, CapOf(d.mode)) /\ (ok <=> d.errs = <<>>),
      c02_derivation |-> ok => P_C02_Derivation(d.toks, d.events),
      c02_tagowner |-> ok => P_C02_TagOwner(d.ast, ix),
      c03_once     |-> ok => P_C03_Once(d.toks, d.ast, ix),
      c03_order    |-> ok => P_C03_Order(d.ast, ix),
-     c03_text     |-> ok => P_C03_Text(d.lines, d.ast, ix),
-     c03_desc     |-> ok => P_C03_Desc(d.lines, d.toks, d.ast, ix),
+     c03_text     |-> ok => (safe /\ P_C03_Text(d.lines, d.ast, ix)),
+     c03_desc     |-> ok => (safe /\ P_C03_Desc(d.lines, d.toks, d.ast, ix)),
      c03_within   |-> ok => P_C03_Within(d.lines, d.ast, ix),
-     c04_readback |-> ok => P_C04_ReadBack(d.lines, d.ast, ix),
+     c04_readback |-> ok => (safe /\ P_C04_ReadBack(d.lines, d.ast, ix)),
      c04_errloc   |-> P_C04_ErrLoc(d.lines, d.errs),
-     c05_doc      |-> ok => P_C05_Doc(d.lines, d.ast, dk, ix),
+     c05_doc      |-> ok => (safe /\ P_C05_Doc(d.lines, d.ast, dk, ix)),
      c06          |-> pk => P_C06(d.pickles, eps),
      c07          |-> pk => P_C07(d.pickles, eps),
      c08          |-> pk => P_C08(d.pickles, eps),
@@ -96,9 +100,9 @@ ImplProps ==
      c10          |-> pk => P_C10(d.pickles, eps),
      c11_canon    |-> pk => P_C11_Canonical(d.ast, d.pickles, d.nid0),
      c11_refs     |-> pk => P_C11_Refs(d.ast, d.pickles, ix),
-     c12_cells    |-> ok => P_C12_Cells(d.lines, d.ast, ix),
+     c12_cells    |-> ok => (safe /\ P_C12_Cells(d.lines, d.ast, ix)),
      c12_rect     |-> ok => P_C12_Rect(d.ast, ix),
-     c13          |-> ok => P_C13_DocStrings(d.lines, d.toks, d.ast, ix),
+     c13          |-> ok => (safe /\ P_C13_DocStrings(d.lines, d.toks, d.ast, ix)),
      c14_once     |-> P_C14_Once(d.errs),
      c18_accepted |-> ok => P_C18_Accepted(d.lines, d.toks),
      c18_partition|-> P_C18_Partition(d.lines, d.toks, d.errs, CapOf(d.mode)) ]
